@@ -2,99 +2,16 @@
 //! protocol, C09 flush, C15). Child module of `transform_stream::dispatcher`; state is injected into
 //! `DispatcherDelegate`'s private fields, the token layer is replaced by a mock that emits the lexeme's
 //! raw bytes (what an unmodified token serialises to — the token types have their own harnesses).
+// @requires src/transform_stream/dispatcher/verif_kani_mocks.rs
+use super::verif_kani_mocks::{Ctl, Rec};
 use super::*;
 use crate::base::SharedEncoding;
 
 const N: usize = 6; // @thorough 8
 const CAP: usize = 16;
 
-pub(crate) struct Ctl {
-    pub fail_at: usize,
-    pub tokens: usize,
-    pub ends: usize,
-    pub bail_outs: usize,
-    pub sink_len_at_bail_out: usize,
-    pub fail_end: bool,
-}
-
-impl TransformController for Ctl {
-    fn initial_capture_flags(&self) -> TokenCaptureFlags {
-        TokenCaptureFlags::empty()
-    }
-    fn handle_start_tag(&mut self, _n: LocalName<'_>, _ns: Namespace) -> StartTagHandlingResult<Self> {
-        Ok(TokenCaptureFlags::empty())
-    }
-    fn handle_end_tag(&mut self, _n: LocalName<'_>) -> TokenCaptureFlags {
-        TokenCaptureFlags::empty()
-    }
-    fn handle_token(&mut self, _t: &mut Token<'_>) -> Result<(), RewritingError> {
-        Ok(())
-    }
-    fn handle_end(&mut self, _d: &mut DocumentEnd<'_>) -> Result<(), RewritingError> {
-        self.ends += 1;
-        if self.fail_end {
-            Err(RewritingError::MemoryLimitExceeded(crate::memory::MemoryLimitExceededError))
-        } else {
-            Ok(())
-        }
-    }
-    fn should_emit_content(&self) -> bool {
-        true
-    }
-    fn handle_bail_out(&mut self, _e: &RewritingError, _b: &mut BailOut<'_>) {
-        self.bail_outs += 1;
-    }
-}
-
-pub(crate) struct Rec {
-    pub buf: [u8; CAP],
-    pub len: usize,
-    pub chunks: usize,
-    pub empty_chunks: usize,
-    pub data_after_empty: bool,
-    pub enc_calls: usize,
-    pub chunk_before_enc: bool,
-}
-
-impl Rec {
-    pub(crate) fn new_pub() -> Self {
-        let mut r = Self::new();
-        r.enc_calls = 0;
-        r
-    }
-    fn new() -> Self {
-        Rec { buf: [0; CAP], len: 0, chunks: 0, empty_chunks: 0, data_after_empty: false, enc_calls: 0, chunk_before_enc: false }
-    }
-}
-
-impl OutputSink for Rec {
-    fn handle_chunk(&mut self, c: &[u8]) {
-        self.chunks += 1;
-        if self.enc_calls == 0 {
-            self.chunk_before_enc = true;
-        }
-        if self.empty_chunks > 0 {
-            self.data_after_empty = true;
-        }
-        if c.is_empty() {
-            self.empty_chunks += 1;
-        }
-        let mut i = 0;
-        while i < c.len() {
-            if self.len < CAP {
-                self.buf[self.len] = c[i];
-            }
-            self.len += 1;
-            i += 1;
-        }
-    }
-    fn set_encoding(&mut self, _e: AsciiCompatibleEncoding) {
-        self.enc_calls += 1;
-    }
-}
-
 fn delegate(rcs: usize, emission_enabled: bool, fail_end: bool) -> DispatcherDelegate<Ctl, Rec> {
-    let mut sink = Rec::new();
+    let mut sink = Rec::new_announced();
     sink.enc_calls = 1; // Dispatcher::new announced the encoding (separate harness)
     DispatcherDelegate {
         transform_controller: Ctl { fail_at: usize::MAX, tokens: 0, ends: 0, bail_outs: 0, sink_len_at_bail_out: 0, fail_end },
@@ -284,7 +201,7 @@ fn c12_encoding_announced_before_data_and_switch_once() {
     let shared = SharedEncoding::default();
     let mut d = Dispatcher::new(
         Ctl { fail_at: usize::MAX, tokens: 0, ends: 0, bail_outs: 0, sink_len_at_bail_out: 0, fail_end: false },
-        Rec::new(),
+        Rec::new_pub(),
         enc,
         shared.clone(),
     );
@@ -302,11 +219,4 @@ fn c12_encoding_announced_before_data_and_switch_once() {
     assert!(!d.delegate.output_sink.chunk_before_enc);
     kani::cover!(!same);
     core::mem::forget(d);
-}
-
-impl Dispatcher<Ctl, Rec> {
-    /// read access for harnesses of the parent module
-    pub(crate) fn verif_parts(&mut self) -> (&Rec, &Ctl) {
-        (&self.delegate.output_sink, &self.delegate.transform_controller)
-    }
 }
